@@ -1,7 +1,7 @@
 #!/usr/bin/env python3
 """tryseed.py <patch.diff> <ID> [<ID> ...] [--tier quick|thorough]: apply a seeded change to /repo, run the
 checks, undo the change. Prints one line per check: DETECTED / missed / tool-error."""
-import subprocess, sys, os
+import subprocess, sys, os, shutil, tempfile
 args = [a for a in sys.argv[1:] if not a.startswith("--")]
 tier = "quick"
 if "--tier" in sys.argv:
@@ -12,6 +12,12 @@ assert subprocess.run(["git", "-C", "/repo", "status", "--porcelain", "--untrack
 r = subprocess.run(["git", "-C", "/repo", "apply", patch], capture_output=True, text=True)
 if r.returncode != 0:
     print("patch does not apply:", r.stderr); sys.exit(2)
+# the evidence files describe the UNCHANGED tree: keep them aside while the checks run against the changed one
+keep = tempfile.mkdtemp(prefix="evidence-keep-", dir="/verif/work" if os.path.isdir("/verif/work") else None)
+for i in ids:
+    f = "/verif/evidence/%s.json" % i
+    if os.path.exists(f):
+        shutil.copy2(f, keep)
 try:
     for i in ids:
         p = subprocess.run(["/verif/check", i, "--tier", tier], capture_output=True, text=True, cwd="/verif")
@@ -23,3 +29,8 @@ try:
             print(p.stdout[-1500:])
 finally:
     subprocess.run(["git", "-C", "/repo", "checkout", "--", "."])
+    for i in ids:
+        k = os.path.join(keep, "%s.json" % i)
+        if os.path.exists(k):
+            shutil.copy2(k, "/verif/evidence/%s.json" % i)
+    shutil.rmtree(keep, ignore_errors=True)
